@@ -11,6 +11,8 @@ import Proofs.ShellLine
 import Proofs.ShellScript
 import Proofs.ShellShapes
 import Proofs.ShellJob
+import Proofs.ShellReplace
+import Proofs.ShellJobReplace
 import Gen.Facts
 
 namespace Props.C18
@@ -218,5 +220,58 @@ theorem raw_job_name_on_command_line_splits :
     shToks [0x65, 0x63, 0x68, 0x6F, 0x20, 0x61, 0x26, 0x62]
       = some [Tok.word [0x65, 0x63, 0x68, 0x6F] false, Tok.word [0x61] false, Tok.op [0x26],
               Tok.word [0x62] false] := by decide
+
+/-! ## The byte-level replacer IS the segment-level rendering
+
+`jobScript` builds the script with `strings.NewReplacer` on the raw template text
+(`replaceGo`, `replArgs`: key ↦ value pairs, and for an empty value every line holding the key
+↦ ""); the theorems above speak about `renderScript` on the template cut into segments.
+`wfTemplate` is a decidable condition on the segmentation (no key and no removable line text
+starts inside literal text, exactly the variable's key starts at a variable, a removable line
+starts with literal text or is one variable alone, …) under which the two agree for ALL values. -/
+
+/-- Regenerated obligation: the key table of the model is the source's (`__MRO_` name `__`). -/
+theorem job_keys_match_source : paramKeys = Gen.jobScriptKeys := by decide
+
+/-- Regenerated obligation: every shipped template, as cut by verif-extract, is well formed
+(checked at every byte position of every template; kernel evaluation). -/
+theorem shipped_templates_wellformed :
+    Gen.jobTemplates.all (fun t => wfTemplate Gen.jobScriptKeys maybeEmptyParams t.2) = true := by
+  decide +kernel
+
+/-- General form: for any key table, any well-formed segmented template and ANY values of which
+only the `maybeEmpty` parameters may be empty, Go's replacer applied to the template text
+yields exactly `renderScript`. -/
+theorem replacer_is_renderScript (keys : Keys) (maybeEmpty : List String) (ls : List SegLine)
+    (vals : String → Bytes) (hwf : wfTemplate keys maybeEmpty ls = true)
+    (hne : ∀ nk ∈ keys, nk.1 ∉ maybeEmpty → vals nk.1 ≠ []) :
+    replaceGo (pairsOf keys vals ls) 0 (templateTextK keys ls) = renderScript vals ls :=
+  (Setting.mk hwf hne).replace_eq_render
+
+/-- Non-vacuity: a template with a removable line and two variables is well formed. -/
+example : wfTemplate [("A", [0x5F, 0x41]), ("B", [0x5F, 0x42])] ["B"]
+    [[("", [0x23, 0x20]), ("B", [])], [("", [0x78, 0x20]), ("A", []), ("", [0x79])], []] = true := by
+  decide
+
+/-- `jobScript` on the text of a shipped template = `renderScript` on its segments, for every
+job (the quoted, numeric and command parameters are never empty: `job_vals_ne`). -/
+theorem jobScript_is_renderScript (t : String × List SegLine) (ht : t ∈ Gen.jobTemplates)
+    (j : JobIn) (hT : j.tmpl = templateTextK Gen.jobScriptKeys t.2) :
+    jobScript Gen.shellEscapes j = renderScript (valsOf (params Gen.shellEscapes j)) t.2 := by
+  have h := shipped_templates_wellformed
+  rw [List.all_eq_true] at h
+  have hw := h t ht
+  rw [← job_keys_match_source] at hw hT
+  exact jobScript_eq_render t.2 hw j hT
+
+/-- no_injection for the script `jobScript` really produces (byte-level replacer model) from the
+text of any shipped template: its shell tokens are the value-independent skeleton with every
+given string reproduced as exactly one word. -/
+theorem jobScript_no_injection (t : String × List SegLine) (ht : t ∈ Gen.jobTemplates)
+    (j : JobIn) (hT : j.tmpl = templateTextK Gen.jobScriptKeys t.2) (hj : JobOK j) (hn : NoNl j) :
+    shToks (jobScript Gen.shellEscapes j)
+      = some (expectedToks (givenOf Gen.shellEscapes j) t.2) := by
+  rw [jobScript_is_renderScript t ht j hT]
+  exact jobScript_tokens t ht j hj hn
 
 end Props.C18
